@@ -174,4 +174,25 @@ pub fn replay(path: &str, every: u64, ev: &mut Vec<Value>, rep: &mut Report) {
             "cps": cps, "feats": feats, "fall": fall, "offered": answers[0], "offered_all": all}));
         rep.distinct += 1;
     });
+    // feature maps whose entry map data passes 64 KiB (16-bit record counts and byte positions at their limits): an answer or
+    // an error, never a panic - also not an overflow panic in the overflow-checked build
+    for (n1, n2) in [(16_390usize, 0usize), (9_000, 9_000), (65_535, 3)] {
+        rep.evaluations += 1;
+        let maps = |n: usize| -> Vec<Value> { (0..n).map(|i| json!([1 + (i % 2), 1 + (i % 2)])).collect() };
+        let mut frecs = vec![json!([0, 3, maps(n1)])];
+        if n2 > 0 {
+            frecs.push(json!([1, 4, maps(n2)]));
+        }
+        let c = json!({"first": 0, "gmap": [0, 1, 2, 1, 2], "maxG": 2, "maxE": 300, "applied": [], "frecs": frecs});
+        let case = json!({"kind": "ift-f1-big-feature-map", "records": [n1, n2]});
+        let font = build_font(build_format1(&c, 3, 0, true));
+        for def in [definition(&[0, 1, 2, 3, 4], &[], true, true), definition(&[0, 1], &[0, 1], false, false), definition(&[1], &[1], false, false)] {
+            if let Err(e) = offered(&font, &def, &by_uri) {
+                if e.starts_with("panic") {
+                    rep.violation(&format!("format 1 map with {n1} + {n2} entry map records: {e}"), case.clone());
+                    break;
+                }
+            }
+        }
+    }
 }
